@@ -13,12 +13,12 @@ EXTENDS MemcContract, Json, IOUtils
 Rec == ndJsonDeserialize(IOEnv.TRACE)
 N   == Len(Rec)
 
-VARIABLES l, cs, dead, viol, cov, hist, noted
-vars == <<l, cs, dead, viol, cov, hist, noted>>
+VARIABLES l, cs, dead, viol, cov, hist, noted, ord
+vars == <<l, cs, dead, viol, cov, hist, noted, ord>>
 
 Empty == InitState({}, "none", 0, 0, FALSE)
 
-Init == l = 1 /\ cs = {Empty} /\ dead = FALSE /\ viol = <<>> /\ cov = <<>> /\ hist = 0 /\ noted = <<>>
+Init == l = 1 /\ cs = {Empty} /\ dead = FALSE /\ viol = <<>> /\ cov = <<>> /\ hist = 0 /\ noted = <<>> /\ ord = <<0, 0>>
 
 Count(c, rule) == IF \E i \in 1..Len(c) : c[i][1] = rule
                   THEN [i \in 1..Len(c) |-> IF c[i][1] = rule THEN <<rule, c[i][2] + 1>> ELSE c[i]]
@@ -36,15 +36,28 @@ NoteAll(c, ids, line) == IF ids = {} THEN c
                          ELSE LET r == CHOOSE x \in ids : TRUE IN NoteAll(Note(c, r, line), ids \ {r}, line)
 Pick(S) == CHOOSE x \in S : TRUE
 
+(* C12 (socket traces only): responses arrive in the order of their requests.  `ord` is      *)
+(* <<batch, index of the last response seen in that batch's response stream>>.               *)
+HasOrder(e) == "bi" \in DOMAIN e
+OrderOK(e) == ~HasOrder(e) \/ Len(e.r) = 0 \/ e.bi # ord[1] \/ e.r[1].ri > ord[2]
+NextOrd(e) == IF HasOrder(e) /\ Len(e.r) > 0 THEN <<e.bi, e.r[Len(e.r)].ri>>
+              ELSE IF HasOrder(e) /\ e.bi # ord[1] THEN <<e.bi, 0 - 1>> ELSE ord
+
 Step ==
     /\ l <= N
     /\ l' = l + 1
+    /\ ord' = IF Rec[l].e = "cmd" /\ ~dead THEN NextOrd(Rec[l]) ELSE ord
     /\ LET e == Rec[l] IN
        IF e.e = "reset" THEN
             /\ cs' = {InitState(SeqRange(e.keys), e.cfg.policy, e.cfg.L, e.cfg.limit, e.obs)}
             /\ dead' = FALSE /\ hist' = e.h /\ UNCHANGED <<viol, cov, noted>>
        ELSE IF dead THEN UNCHANGED <<cs, dead, viol, cov, hist, noted>>
        ELSE IF e.e = "tick" THEN cs' = TickAll(cs, e.to) /\ UNCHANGED <<dead, viol, cov, hist, noted>>
+       ELSE IF e.e = "stray" \/ ~OrderOK(e) THEN
+            /\ viol' = Append(viol, [line |-> l, hist |-> hist, tags |-> {"C12", "C11"},
+                                     rule |-> IF e.e = "stray" THEN "stray.response" ELSE "out.of.order",
+                                     rules |-> {}, op |-> "", key |-> "", now |-> 0])
+            /\ dead' = TRUE /\ UNCHANGED <<cs, cov, hist, noted>>
        ELSE LET j == JudgeAll(cs, e) IN
             /\ cov' = CountAll(cov, j.rules)
             /\ hist' = hist
